@@ -14,6 +14,7 @@ pub mod c13;
 pub mod c14;
 pub mod c15;
 pub mod c16;
+pub mod c16h;
 pub mod c17;
 pub mod c18;
 pub mod c19;
